@@ -171,6 +171,11 @@ func remoteWorld(rec *recorder) {
 	plain := httptest.NewServer(handler("http"))
 	secure := httptest.NewTLSServer(handler("https"))
 	plainAddr, secureAddr := plain.Listener.Addr().String(), secure.Listener.Addr().String()
+	for _, a := range []string{plainAddr, secureAddr} {
+		if _, p, err := net.SplitHostPort(a); err == nil {
+			helperPorts.Store(p, true)
+		}
+	}
 	d := &net.Dialer{Timeout: 10 * time.Second}
 	client.SafeHttpTransport.Proxy = nil
 	client.SafeHttpTransport.DialContext = func(ctx context.Context, network, addr string) (net.Conn, error) {
@@ -189,6 +194,10 @@ func remoteWorld(rec *recorder) {
 	}
 	client.SafeHttpTransport.TLSClientConfig.InsecureSkipVerify = true // the remote hosts are fakes; certificate validation is not what is observed here
 }
+
+// helperPorts are the ports of the fake remote hosts of this process: the kernel may hand out a port the parent had reserved for the
+// node (and released); a listener there is not the node accepting traffic (the node then fails to bind and the run is repeated).
+var helperPorts sync.Map
 
 var harnessHTTP = &http.Client{Transport: &http.Transport{}, Timeout: 10 * time.Second,
 	CheckRedirect: func(*http.Request, []*http.Request) error { return http.ErrUseLastResponse }}
@@ -217,7 +226,9 @@ func nodeWorker(args []string) int {
 		own := ownListeningPorts()
 		for _, a := range addrs {
 			if _, p, err := net.SplitHostPort(a); err == nil && own[p] {
-				return true
+				if _, helper := helperPorts.Load(p); !helper {
+					return true
+				}
 			}
 		}
 		return false
